@@ -33,6 +33,12 @@ Definition graph_ops : list (string * handler) :=
         match vbool st, omap v_entry tbl with
         | Some s, Some T => Some (ofopt (fun g => VL (map of_node g)) (compress_kmers pay pay_reduce (pay_join mode) s T))
         | _, _ => None end | _ => None end);
+    (* the shipped ScmapCompress: join = payload equality, reduce keeps the payload; payload = colour (ids dropped) *)
+    ("c.compress_scmap"%string, fun a => match a with [VN k; st; VL tbl] =>
+        match vbool st, omap v_entry tbl with
+        | Some s, Some T => Some (ofopt (fun g => VL (map (fun n => of_node (fst n, (fst (snd n), []))) g))
+                                        (compress_kmers pay pay_reduce (pay_join 1) s T))
+        | _, _ => None end | _ => None end);
     ("c.derive_exts"%string, fun a => match a with [st; VL ks] =>
         match vbool st, omap vNs ks with
         | Some s, Some keys => Some (ofNs (map (derive_exts s keys) keys)) | _, _ => None end | _ => None end);
